@@ -5,7 +5,7 @@
            ok <summary> | err:eof | err:invalid | panic:<site> | alloc
            or `gray` when the outcome under budget B and under 16·B differ (an allocation request
            in the zone where the implementation's measured total may fall either side).
-    gguf-layers <hex>
+    gguf-layers <maxSeek> <hex>
         -> what POST /api/create makes of an uploaded file: `err` | `loop` | `ok sizes=<n1,n2,…>` (one model layer per
            GGUF found back to back in the file, with the bytes each layer gets)
 -/
@@ -33,8 +33,9 @@ def handle (toks : List String) : Option String :=
   | "gguf-layers" :: rest =>
     -- server/create.go ggufLayers on an uploaded file: `loop` (does not terminate), `err`, or the byte sizes of the layers
     runTP (do
+      let maxSeek ← nat           -- the file system's largest seekable offset, measured by the driver
       let bs ← hex
-      pure (match ggufLayers bs with
+      pure (match ggufLayers bs none Guards.tree maxSeek with
         | none => "loop"
         | some (.error _) => "err"
         | some (.ok ls) => "ok sizes=" ++ joinWith "," (ls.map fun l => toString l.size))) rest
